@@ -107,10 +107,8 @@ def excCase (fam : String) (cfg : List String) (op : Op) (as bs : String) : Exce
              applies := ElasticSpec.kindApplies .edecimal_integer_divide_by_zero op a b, stderrSignal := true }
   | "erat", [_] =>
     let (a, b) ← intOps
-    let e := ElasticSpec.err op a b
-    return { p := Elastic.eratPrologue op a b, errCond := e,
-             applies := ElasticSpec.kindApplies .erational_divide_by_zero op a b, stderrSignal := true,
-             cls := if e then "" else "exc.erational.stderr" }
+    return { p := Elastic.eratPrologue op a b, errCond := ElasticSpec.err op a b,
+             applies := ElasticSpec.kindApplies .erational_divide_by_zero op a b, stderrSignal := true }
   | _, _ => throw s!"unknown exc family/configuration {fam}"
 
 def excHandler : Handler := fun lhs rhs => do
